@@ -32,10 +32,13 @@ func (h *Session) VerifStopTimers() {
 // VerifStop ends the session's goroutines and closes the connection without the one second
 // sleep of Close and without closing the notification channel.
 func (h *Session) VerifStop() {
+	h.mutex.Lock()
 	if h.closed {
+		h.mutex.Unlock()
 		return
 	}
 	h.closed = true
+	h.mutex.Unlock()
 	h.VerifStopTimers()
 	verifTimersStopped.Delete(h)
 	h.Conn.Close()
